@@ -898,10 +898,51 @@ func checkMeshCase(c meshCase, o *kit.Obs) error {
 		s := c.Shapes[0]
 		eps := 0.02 * s.Size()
 		sc := &model3d.SolidCollider{Solid: s.Build(), Epsilon: eps}
+		// the documented options, left at zero or set, in the combinations the first ray's bits select
+		opt := 0
+		if len(c.Rays) > 0 {
+			opt = int(math.Float64bits(c.Rays[0].O[0]) % 8)
+		}
+		if opt&1 != 0 {
+			sc.NormalBisectEpsilon = eps / 10
+		}
+		if opt&2 != 0 {
+			sc.NormalSamples = 24
+		}
+		if opt&4 != 0 {
+			sc.BisectCount = 40
+		}
+		o.Labelf("solid-collider-options:%d", opt)
+		// the probes are random, single estimates scatter (some tens of degrees now and then): the MEDIAN of the
+		// case's estimates is judged, and only with six or more of them
+		var angles []float64
+		defer func() {
+			if len(angles) >= 6 {
+				sort.Float64s(angles)
+				o.Labelf("solid-collider-normal-median:%s", map[bool]string{true: "<=3deg", false: ">3deg"}[angles[len(angles)/2] <= 3])
+			}
+		}()
 		for _, r := range c.Rays {
 			hits, err := rayContract(sc, r, "SolidCollider("+s.Kind+")")
 			if err != nil {
 				return err
+			}
+			// with the bisection method the normal is accurate where the surface is smooth around the hit
+			// (measured on the unchanged tree: below 3 degrees; 15 are allowed)
+			if sc.NormalBisectEpsilon != 0 {
+				for _, h := range hits {
+					p := r.O.Add(r.D.Scale(h.scale))
+					ref := s.RefSDF(p)
+					smooth := ref.Smooth
+					for _, dv := range []kit.V3{{1, 0, 0}, {0, 1, 0}, {0, 0, 1}, {-1, 0, 0}, {0, -1, 0}, {0, 0, -1}} {
+						if rr := s.RefSDF(p.Add(dv.Scale(3 * eps))); !rr.Smooth || rr.Normal.Dot(ref.Normal) < 0.9 {
+							smooth = false
+						}
+					}
+					if smooth {
+						angles = append(angles, math.Acos(math.Max(-1, math.Min(1, h.normal.Dot(ref.Normal))))*180/math.Pi)
+					}
+				}
 			}
 			// approximate collider: every reported collision lies within Epsilon of the surface
 			for _, h := range hits {
@@ -910,6 +951,13 @@ func checkMeshCase(c meshCase, o *kit.Obs) error {
 					return fmt.Errorf("SolidCollider(%s %+v, eps %g): ray %+v: collision at parameter %g is %g away from the surface", s.Kind, s, eps, r, h.scale, d)
 				}
 				o.NonTrivial()
+			}
+		}
+		if len(angles) >= 6 {
+			sorted := append([]float64(nil), angles...)
+			sort.Float64s(sorted)
+			if med := sorted[len(sorted)/2]; med > 15 {
+				return fmt.Errorf("SolidCollider(%s %+v, eps %g, NormalBisectEpsilon %g, NormalSamples %d): the median of %d normal estimates on smooth parts of the surface is %.1f degrees away from the outward normal (angles %.1f)", s.Kind, s, eps, sc.NormalBisectEpsilon, sc.NormalSamples, len(sorted), med, sorted)
 			}
 		}
 		return nil
@@ -1087,6 +1135,15 @@ func genXform(t *rapid.T) xformCase {
 func checkXform(c xformCase, o *kit.Obs) error {
 	tc := model3d.TransformCollider(c.X.Build().(model3d.DistTransform), c.Shape.Build())
 	what := fmt.Sprintf("TransformCollider(%+v, %s)", c.X, c.Shape.Kind)
+	if c.X.Kind == "joined" && len(c.X.Parts) >= 2 {
+		// the same map as a wrapper of a wrapper: one TransformCollider per part, the first part innermost
+		tc = c.Shape.Build()
+		for _, part := range c.X.Parts {
+			tc = model3d.TransformCollider(part.Build().(model3d.DistTransform), tc)
+		}
+		what = "nested " + what
+		o.Label("nested-wrappers")
+	}
 	f := c.X.DistFactor()
 	for _, r := range c.Rays {
 		hits, err := rayContract(tc, r, what)
